@@ -487,23 +487,46 @@ theorem tame_recd (d : Int) : Tame (fun _ x => match x with
   | hist n h => simp only; split <;> exact ⟨rfl, rfl, noTimer_nil⟩
   | _ => exact ⟨rfl, rfl, noTimer_nil⟩
 
-theorem close_root_aux (st X : St) (b c : Bool) (hX : Frame st X) :
+theorem purgeFrom_length (regd : List Nat) : ∀ (L : List ScopeS) (i : Nat), (purgeFrom regd i L).length = L.length := by
+  intro L
+  induction L with
+  | nil => intro i; rfl
+  | cons x xs ih => intro i; simp [purgeFrom, ih]
+
+theorem purgeFrom_get (regd : List Nat) : ∀ (L : List ScopeS) (i j : Nat) (t : ScopeS),
+    (purgeFrom regd i L)[j]? = some t →
+    ∃ x, L[j]? = some x ∧ (t = x ∨ t = { x with closed := true, metrics := [] }) := by
+  intro L
+  induction L with
+  | nil => intro i j t h; simp [purgeFrom] at h
+  | cons x xs ih =>
+    intro i j t h
+    cases j with
+    | zero =>
+      simp only [purgeFrom, List.getElem?_cons_zero, Option.some.injEq] at h
+      refine ⟨x, by simp, ?_⟩
+      split at h
+      · exact .inr h.symm
+      · exact .inl h.symm
+    | succ j =>
+      simp only [purgeFrom, List.getElem?_cons_succ] at h
+      obtain ⟨y, hy, ht⟩ := ih (i + 1) j t h
+      exact ⟨y, by simpa using hy, ht⟩
+
+theorem close_root_aux (st X : St) (regd : List Nat) (b c : Bool) (hX : Frame st X) :
     Frame st { ({ (reportPass X).1 with
                     reg := [],
-                    scopes := (reportPass X).1.scopes.map (fun (x : ScopeS) => { x with closed := true, metrics := [] }) } : St) with
+                    scopes := purgeFrom regd 0 (reportPass X).1.scopes } : St) with
                reporterClosed := b }
     ∧ noTimer ((reportPass X).2 ++ if c = true then [Event.close] else []) := by
   have hr := reportPass_spec X
   refine ⟨hX.trans (hr.1.trans ?_), ?_⟩
-  · refine ⟨rfl, rfl, rfl, rfl, by simp, ?_⟩
+  · refine ⟨rfl, rfl, rfl, rfl, by simp [purgeFrom_length], ?_⟩
     intro i t ht
-    simp only [List.getElem?_map] at ht
-    cases hx : (reportPass X).1.scopes[i]? with
-    | none => simp [hx] at ht
-    | some x =>
-      simp only [hx, Option.map_some, Option.some.injEq] at ht
-      subst ht
-      exact .inl ⟨x, rfl, rfl, rfl, by intro p hp; cases hp⟩
+    obtain ⟨x, hx, hxt⟩ := purgeFrom_get regd _ 0 i t ht
+    rcases hxt with rfl | rfl
+    · exact .inl ⟨t, hx, sle.refl _⟩
+    · exact .inl ⟨x, hx, rfl, rfl, by intro p hp; cases hp⟩
   · refine noTimer_append hr.2 ?_
     split
     · intro e he; simp at he; subst he; rfl
@@ -523,7 +546,7 @@ theorem close_spec (st : St) (sid : Nat) :
       · exact ⟨f1, noTimer_nil⟩
       · split
         · exact ⟨f1.trans (Frame.of_scopes_eq rfl rfl rfl rfl rfl), noTimer_nil⟩
-        · exact close_root_aux st _ _ _ (f1.trans (Frame.of_scopes_eq rfl rfl rfl rfl rfl))
+        · exact close_root_aux st _ _ _ _ (f1.trans (Frame.of_scopes_eq rfl rfl rfl rfl rfl))
 
 theorem step_frame (st : St) (op : Op) (h : isCreate op = false) : Frame st (step st op).1 := by
   cases op with
